@@ -77,7 +77,16 @@ Bare(v) == /\ ~down /\ schema = EmptyObj /\ schema' = v /\ down' = TRUE
 RefTo(s) == Str(s)
 P_defs_a == <<35, 47>> \o K_definitions \o <<47>> \o S_a
 U_remote == <<104,116,116,112,58,47,47,117,110,114,101,116,114,105,101,118,97,98,108,101,46,105,110,118,97,108,105,100,47,120,46,106,115,111,110>>
+U_noturi == <<104, 116, 116, 112, 58, 47, 47, 91>>                 \* "http://["  -- no URI reference at all
+U_noturi6 == <<104, 116, 116, 112, 58, 47, 47, 91, 58, 58, 49>>     \* "http://[::1"
+U_r == <<104,116,116,112,58,47,47,120,46,105,110,118,97,108,105,100,47,114,46,106,115,111,110>>   \* http://x.invalid/r.json
 RefCands(d) == {
+  \* references that designate nothing retrievable because they are not URI references: a failed resolution like any other
+  Obj1(K_d_ref, RefTo(U_noturi)),
+  Obj1(K_properties, Obj1(S_a, Obj1(K_d_ref, RefTo(U_noturi6)))),
+  JObj(<<IdKw(d), K_properties>>, <<Str(U_r), Obj1(S_a, Obj1(K_d_ref, RefTo(U_noturi)))>>),
+  \* ... and the same text as the document's own id, with a reference into the document itself
+  JObj(<<IdKw(d), K_properties, K_definitions>>, <<Str(U_noturi), Obj1(S_a, Obj1(K_d_ref, RefTo(P_defs_a))), Obj1(S_a, TInt)>>),
   Obj1(K_d_ref, RefTo(<<35>>)),
   Obj1(K_d_ref, RefTo(<<35, 47, 110, 111, 112, 101>>)),
   Obj2(K_definitions, Obj1(S_a, TInt), K_d_ref, RefTo(P_defs_a)),
